@@ -4,6 +4,7 @@ import Proofs.C11Range
 import Proofs.C11Stream
 import Proofs.C11Visits
 import Proofs.C11OpLog
+import Proofs.C11Depth
 /-!
 # C11 — input bookkeeping: NR, FNR, FILENAME, operands, getline, ranges, next, exit
 
@@ -181,7 +182,21 @@ theorem unwind_append (os more : List Op) (s : St) (sig : Sig) (s1 : St)
     (h : execOps os s = (sig, s1)) (hs : sig ≠ .normal) : execOps (os ++ more) s = (sig, s1) :=
   execOps_abort os more s sig s1 h hs
 
-theorem unwind_call (body : List Op) (s : St) : execOp (.call body) s = execOps body s := by simp [execOp]
+/-- a function call passes the signal of its body on unchanged, and the call-depth counter is decremented on every way out -/
+theorem unwind_call (body : List Op) (s : St) (h : s.depth < maxCallDepth) :
+    execOp (.call body) s = ((execOps body s.enterCall).1, (execOps body s.enterCall).2.leaveCall) := by
+  simp only [execOp]
+  rw [if_neg (by omega)]
+
+/-- **the call-depth counter is restored by every record, however it ended** (normal, next, nextfile, exit from any depth of
+calls, loops, conditionals — or from a pattern): one operation, an operation list, one record through the rule list, the whole
+main loop, the whole run. In particular no amount of early exits from functions can exhaust `maxCallDepth`. -/
+theorem depth_restored_ops (os : List Op) (s : St) : (execOps os s).2.depth = s.depth := execOps_depth os s
+
+theorem depth_restored_record (i : Nat) (rules : List Rule) (fl : List Bool) (s : St) :
+    (runRules i rules fl s).2.2.depth = s.depth := runRules_depth i rules fl s
+
+theorem depth_restored_run (fuel : Nat) (p : Prog) (s : St) : (run fuel p s).2.depth = s.depth := run_depth fuel p s
 
 theorem unwind_loop (n : Nat) (body : List Op) (s : St) (sig : Sig) (s1 : St)
     (h : execOps body s = (sig, s1)) (hs : sig ≠ .normal) : execOp (.loop (n + 1) body) s = (sig, s1) :=
